@@ -37,7 +37,7 @@ def gen_case(rng, force_shape=None):
     step = rng.choice(STEPS)
     n = rng.randrange(3, 8)
     start = datetime(rng.choice([2018, 2019, 2020, 2021]), rng.randrange(1, 13), rng.randrange(1, 28), rng.randrange(24), rng.randrange(60), rng.choice([0, 0, rng.randrange(60)]))
-    shape = rng.choice(["inside", "spanning", "start_on", "end_on", "both_on", "neither", "neither", "at_epoch", "dyadic", "abutting", "abutting", "late_tail"])
+    shape = rng.choice(["inside", "spanning", "start_on", "end_on", "both_on", "neither", "neither", "at_epoch", "dyadic", "abutting", "abutting", "late_tail", "before_epoch"])
     if shape == "late_tail" and rng.random() < 0.5:
         shape = "neither"  # the long runs are expensive: half as frequent
     if force_shape:
@@ -82,6 +82,10 @@ def gen_case(rng, force_shape=None):
         a = b - rng.randrange(step + 10, 2 * step)
     elif shape == "at_epoch":
         a = 0
+        b = rng.randrange(1, total)
+    elif shape == "before_epoch":
+        # the burn is already under way when the scenario starts: it thrusts from the epoch to its configured end
+        a = -rng.randrange(1, 3 * step)
         b = rng.randrange(1, total)
     elif shape == "dyadic":
         a = 2700
@@ -193,6 +197,7 @@ def reference(case, dyn, x0, t_final):
     try:
         for (ta, tb, f) in legs:
             tb = min(tb, float(t_final))
+            ta = max(ta, 0.0)
             if tb <= ta:
                 continue
             if case["burn"] == "plane_change" and f is rhs_on:
@@ -326,13 +331,15 @@ def eval_case(ctx, case):
         key = f"burn-ignored-{case['model']}"
     elif case.get("second"):
         key = "burn-trajectory-abutting-burns"
+    elif case["shape"] == "before_epoch":
+        key = "burn-trajectory-started-before-epoch"
     elif case["shape"] in ("at_epoch", "dyadic"):
         key = "burn-trajectory-start-bit-identical-to-step-start"
     elif misaligned_end:
         key = "burn-overshoot-misaligned-end"
     else:
         key = "burn-trajectory-aligned-end"
-    dv_nominal = (np.linalg.norm(case["vec"]) if case["burn"].startswith("burn") else abs(case["mag"])) * (min(case["t_off"], t_final) - case["t_on"])
+    dv_nominal = (np.linalg.norm(case["vec"]) if case["burn"].startswith("burn") else abs(case["mag"])) * (min(case["t_off"], t_final) - max(case["t_on"], 0))
     ons = [t for t, s in log if s == "on"]
     ctx.check(dr <= tol_r and dv <= tol_v, key,
               f"{case['burn']} over [{case['t_on']},{case['t_off']}]s (step {case['step']}s, {case['model']}, {case['shape']}): final truth differs from the reference by |dr|={dr:.3e} km |dv|={dv:.3e} km/s "
@@ -347,7 +354,7 @@ def run(ctx):
         if ctx.time_left() < 10:
             break
         # every run contains the expensive but otherwise unreachable shapes at least once
-        forced = {0: "late_tail", 1: "dyadic", 2: "at_epoch", 3: "abutting"}.get(ctx.shard) if i == 0 else None
+        forced = {0: "late_tail", 1: "dyadic", 2: "at_epoch", 3: "abutting", 4: "before_epoch"}.get(ctx.shard) if i == 0 else None
         case = gen_case(rng, forced)
         eval_case(ctx, case)
         ctx.count("shape_" + case["shape"])
